@@ -4,8 +4,31 @@ import vlib
 THEOREMS = ['C26_mem', 'C26_file', 'C26_nearest', 'C26_nearest_zero']
 
 
-def gen(rng, n):
+def boundary(rng):
+    """records at the size limit of the store (FIX8_MAX_MSG_LENGTH - 1 and exactly FIX8_MAX_MSG_LENGTH bytes: the read buffer of
+    FilePersister::get holds exactly that many) among small ones, read back singly and by ranges, before and after a reopen"""
+    import gen_facts  # noqa  (the limit is taken from the generated constants when available)
+    lim = 8192
+    try:
+        import re as _re
+        lim = int(_re.search(r'#define\s+FIX8_MAX_MSG_LENGTH\s+(\d+)', open(vlib.REPO + '/include/fix8/f8config.h').read()).group(1))
+    except Exception:
+        pass
     lines = []
+    for kind in ('file', 'mem'):
+        lines += ['open ' + kind, 'cput 1 1']
+        sizes = [5, lim - 1, 7, lim, 3, lim, 9]
+        for i, ln in enumerate(sizes):
+            lines.append('put %d %s' % (i + 1, bytes(rng.randrange(256) for _ in range(ln)).hex()))
+        probe = ['get %d' % k for k in range(1, len(sizes) + 2)] + ['last', 'near 2', 'near 4', 'range 1 0', 'range 1 %d' % len(sizes), 'range 2 4', 'range 4 4', 'range 3 6']
+        lines += probe
+        if kind == 'file':
+            lines += ['reopen'] + probe
+    return lines
+
+
+def gen(rng, n):
+    lines = boundary(rng)
     for h in range(n):
         kind = rng.choice(('mem', 'file'))
         lines.append('open ' + kind)
@@ -85,7 +108,7 @@ def run(res, replay=None):
                         'messages are at most FIX8_MAX_MSG_LENGTH bytes (FilePersister::get reads into a stack buffer of that size)',
                         'POSIX lseek/read/write as atomic steps; a clean close/reopen keeps the files']
     res.cov['rule'] = ('operation histories on MemoryPersister and FilePersister (1..200 ops over a small key pool so that duplicates, gaps and out-of-order stores occur; '
-                       'message sizes 0..300 plus occasional 2047/4096/8192; reopen for the file store); distinct by (history, position); non-trivial = every op except open/reopen')
+                       'message sizes 0..300 plus occasional 2047/4096/8192, and in every run a directed history with records of FIX8_MAX_MSG_LENGTH - 1 and exactly FIX8_MAX_MSG_LENGTH bytes read back singly and by ranges; reopen for the file store); distinct by (history, position); non-trivial = every op except open/reopen')
     vlib.decide_stream(res, module='Fix8Model.Props.C26', theorems=THEOREMS, stream='store', harness_name='store',
                        lines=lines, oracle=Oracle(), nontrivial=(lambda c=[0]: (lambda l: (c.__setitem__(0, c[0] + 1) or (c[0], l)) if not l.startswith(('open', 'reopen')) else None))(),
                        harness_kw=dict(need_schema=True, extra_flags=['-ldl']), stateful=True)
